@@ -26,6 +26,8 @@ ASSUMPTIONS = [
 
 VMAX = 2
 SPEC = "mc.props.c03"
+# leaf-level fibers assigned through the handle of a partial point (r <<= g)
+ASSIGN = [((), ()), ((0,), (1,)), ((1,), (2,)), ((0, 1), (1, 1))]
 
 
 class St:
@@ -80,6 +82,10 @@ def ops(S):
                 out.append(("get", pt, mode))
             if ln < d:
                 out.append(("ref", pt, "none"))
+                if ln == d - 1:
+                    # fiber assignment through the handle of a partial point
+                    for i in range(len(ASSIGN)):
+                        out.append(("ref", pt, "asg%d" % i))
             else:
                 cur = S.model.get(pt, 0)
                 acts = ["none", "set1", "set0", "keep"]
@@ -162,6 +168,18 @@ def step(S, op):
             r = acc.getPayloadRef(*pt)
             if _stored_at(T, pt) is not r:
                 V("getPayloadRef", "not-aliased", None, repr(r), "len:%d" % len(pt))
+            if act.startswith("asg"):
+                g = ASSIGN[int(act[3:])]
+                r <<= Fiber(list(g[0]), list(g[1]))
+                for q in [q for q in S.model if q[:len(pt)] == pt]:
+                    del S.model[q]
+                for c, v in zip(*g):
+                    if v != 0:
+                        S.model[pt + (c,)] = v
+                # boxes under the prefix were replaced: older handles to them no longer alias the tree
+                S.handles = [(q, h) for q, h in S.handles if q[:len(pt)] != pt]
+                if _stored_at(T, pt) is not r:
+                    V("getPayloadRef", "assignment-detached-the-handle", None, repr(r), "act:assign-fiber")
             if len(pt) == S.depth:
                 if not isinstance(r, Payload):
                     V("getPayloadRef", "leaf-not-boxed", None, repr(r))
